@@ -678,14 +678,20 @@ func h1ExecConcurrent(run *simkit.Run) {
 
 func init() {
 	simkit.Register(&simkit.Prop{ID: "C17", Exec: func(run *simkit.Run) {
-		if run.Case.Family == "h1.concurrent" {
+		switch run.Case.Family {
+		case "h1.concurrent":
 			h1ExecConcurrent(run)
-		} else {
+		case "h1.linear":
+			h1ExecLinear(run)
+		default:
 			h1ExecDriven(run)
 		}
 	}, Gen: func(rng *simkit.Rand, tier string, idx int) *simkit.Case {
 		if idx%4 == 3 {
 			return h1GenConcurrent(rng, tier, idx)
+		}
+		if idx%4 == 1 {
+			return h1GenLinear(rng, tier, idx)
 		}
 		return h1GenDriven("C17")(rng, tier, idx)
 	}})
